@@ -397,6 +397,14 @@ func filesMode(tier, shard, of int) int {
 			return &aa.Variable{Name: "gxx", Define: true, Values: []string{"/usr/include/c++/", "/opt/k=v"}}
 		}},
 		{"# second comment", func() aa.Rule { return &aa.Comment{Base: aa.Base{IsLineRule: true, Comment: " second comment"}} }},
+		// (fourth hunt) a trailing comment glued to its `#` on a line rule: an inline directive (shipped: packagekitd), one word
+		{"include <abstractions/common/apt> #aa:only apt", func() aa.Rule {
+			return &aa.Include{Base: aa.Base{Comment: "aa:only apt"}, IsMagic: true, Path: "abstractions/common/apt"}
+		}},
+		{"@{browsers} += @{tor_path} #aa:only whonix", func() aa.Rule {
+			return &aa.Variable{Base: aa.Base{Comment: "aa:only whonix"}, Name: "browsers", Define: false, Values: []string{"@{tor_path}"}}
+		}},
+		{"include <tunables/none> #todo", func() aa.Rule { return &aa.Include{Base: aa.Base{Comment: "todo"}, IsMagic: true, Path: "tunables/none"} }},
 	}
 	maxL := 4
 	if tier == universe.Thorough {
